@@ -248,6 +248,13 @@ CONTRACTS = [hmesh_refine, mark_recursive, cell_neighborhood] + [_children_contr
 
 # ---- the marking pass of HSpace.refine: after it the marks are closed under Nbh on EVERY level -------------------------------------
 
+def _snapshot_marks(ex, st):
+    """`marked = {lv: set(cells) for (lv, cells) in marked.items()}`: a copy of the marks, level by level.  The model holds the marks BY VALUE
+    (level -> set of cells), so the copy is the identity on it; what the copy is for -- marks that alias the mesh's own sets -- is outside
+    the value model and decided in the bounded tier (`alias` cases)."""
+    return None
+
+
 def _skip_max_h(ex, st):
     _skip_max(ex, st)
 
@@ -275,7 +282,7 @@ hspace_refine_marking = Contract(
                         # (ensure_levels has run: the finest level and everything beyond carries no marks)
                         ForAll('l', lambda l: Implies(Or(l < 0, l >= s.self.numlevels - 1), _cq('c', lambda c: Not(s.marked.member(l, c)))))],
     callees={'self._mark_recursive': None},
-    replace=[(r'max_lv = max\(', _skip_max_h), (r'self\._ensure_levels\(max_lv \+ 2\)', _ensure_levels_h)],
+    replace=[(r'marked = \{lv: set\(cells\) for', _snapshot_marks), (r'max_lv = max\(', _skip_max_h), (r'self\._ensure_levels\(max_lv \+ 2\)', _ensure_levels_h)],
     loops={0: LoopSpec(r'for l in range\(self\.numlevels\)', inv=lambda s: [
         ('closed-below-l', ForAll('k', lambda k: Implies(And(0 <= k, k < s.l), _closed(s.marked, k, s.self.disparity, s.truncate)))),
         ('len', s.marked.len == s.self.numlevels),
@@ -651,7 +658,7 @@ hspace_refine_activation = Contract(
     params={'self': _HSPACE, 'marked': SetList(Cell), 'truncate': Bool()},
     requires=_act_req,
     callees=dict(_SUPPORT_CALLEES, **{'self._clear_cache': lambda ex, st, call, *a, **k: None}),
-    replace=[(r'max_lv = max\(', _skip_max), (r'self\._ensure_levels\(max_lv \+ 2\)', lambda ex, st: None),
+    replace=[(r'marked = \{lv: set\(cells\) for', _snapshot_marks), (r'max_lv = max\(', _skip_max), (r'self\._ensure_levels\(max_lv \+ 2\)', lambda ex, st: None),
              (r'if self\.disparity < np\.inf', _skip_marking)],
     loops={1: LoopSpec(r'for lv in range\(len\(self\.hmesh\.meshes\) - 1\)', inv=lambda s: _act_inv(s) + [
         ('mf-is-what-was-computed', _mf_at_entry(s.mf, s)), ('mf-len', s.mf.len == s.self.hmesh.meshes.len)])},
